@@ -134,9 +134,11 @@ async def delete_from_cache(
     queue = registry.kill_resource(resource=resource)
     registry.deregister(deregisterer=resource, deregistered_at=deleted_at)
 
-    # This shouldn't happen, just an extra check
-    if resource in _REPREPARE_TASKS:
-        _REPREPARE_TASKS[resource].cancel()
+    # Forget the monitor right away: a resource offered again before the
+    # cancelled task has finished must get a monitor of its own.
+    monitor_task = _REPREPARE_TASKS.pop(resource, None)
+    if monitor_task:
+        monitor_task.cancel()
 
     match queue:
         case None:
@@ -271,8 +273,16 @@ _REPREPARE_TASKS: dict[registry.Resource, asyncio.Task] = {}
 
 def _deletor(resource):
     def do_delete(task: asyncio.Task):
+        if _REPREPARE_TASKS.get(resource) is not task:
+            # The resource was deleted (and possibly offered again) meanwhile;
+            # the registry entry is no longer this task's to clean up.
+            return
+
         del _REPREPARE_TASKS[resource]
         registry.deregister(resource, time.monotonic())
+
+        if task.cancelled():
+            return
 
         task_exception = task.exception()
         if task_exception:
